@@ -439,3 +439,263 @@ package fosite
 //@   sets recv.GetRequestURI() = requestURI
 //@ interface PushedAuthorizeResponder.SetExpiresIn
 //@   sets recv.GetExpiresIn() = seconds
+
+// ---------------------------------------------------------------- Config getters (C19 read-only, C07 defaults, C17 enforcement flag)
+// Getters of the provider configuration may run concurrently on one instance: they must not write to it.
+//@ func (*Config).GetGlobalSecret
+//@   requires c != nil
+//@   readonly [C19.config-getters-read-only]
+
+//@ func (*Config).GetUseLegacyErrorFormat
+//@   requires c != nil
+//@   readonly [C19.config-getters-read-only]
+//@   ensures [C19.config-getter-value] result == c.UseLegacyErrorFormat
+
+//@ func (*Config).GetRotatedGlobalSecrets
+//@   requires c != nil
+//@   readonly [C19.config-getters-read-only]
+
+//@ func (*Config).GetHMACHasher
+//@   requires c != nil
+//@   readonly [C19.config-getters-read-only]
+//@   ensures [C19.config-getter-value] result == c.HMACHasher
+
+//@ func (*Config).GetAuthorizeEndpointHandlers
+//@   requires c != nil
+//@   readonly [C19.config-getters-read-only]
+//@   ensures [C19.config-getter-value] result == c.AuthorizeEndpointHandlers
+
+//@ func (*Config).GetTokenEndpointHandlers
+//@   requires c != nil
+//@   readonly [C19.config-getters-read-only]
+//@   ensures [C19.config-getter-value] result == c.TokenEndpointHandlers
+
+//@ func (*Config).GetTokenIntrospectionHandlers
+//@   requires c != nil
+//@   readonly [C19.config-getters-read-only]
+//@   ensures [C19.config-getter-value] result == c.TokenIntrospectionHandlers
+
+//@ func (*Config).GetDeviceEndpointHandlers
+//@   requires c != nil
+//@   readonly [C19.config-getters-read-only]
+//@   ensures [C19.config-getter-value] result == c.DeviceEndpointHandlers
+
+//@ func (*Config).GetRevocationHandlers
+//@   requires c != nil
+//@   readonly [C19.config-getters-read-only]
+//@   ensures [C19.config-getter-value] result == c.RevocationHandlers
+
+//@ func (*Config).GetHTTPClient
+//@   requires c != nil
+//@   readonly [C19.config-getters-read-only]
+
+//@ func (*Config).GetSecretsHasher
+//@   requires c != nil
+//@   readonly [C19.config-getters-read-only]
+
+//@ func (*Config).GetTokenURLs
+//@   requires c != nil
+//@   readonly [C19.config-getters-read-only]
+
+//@ func (*Config).GetFormPostHTMLTemplate
+//@   requires c != nil
+//@   readonly [C19.config-getters-read-only]
+//@   ensures [C19.config-getter-value] result == c.FormPostHTMLTemplate
+
+//@ func (*Config).GetMessageCatalog
+//@   requires c != nil
+//@   readonly [C19.config-getters-read-only]
+//@   ensures [C19.config-getter-value] result == c.MessageCatalog
+
+//@ func (*Config).GetResponseModeHandlerExtension
+//@   requires c != nil
+//@   readonly [C19.config-getters-read-only]
+//@   ensures [C19.config-getter-value] result == c.ResponseModeHandlerExtension
+
+//@ func (*Config).GetSendDebugMessagesToClients
+//@   requires c != nil
+//@   readonly [C19.config-getters-read-only]
+//@   ensures [C19.config-getter-value] result == c.SendDebugMessagesToClients
+
+//@ func (*Config).GetIDTokenIssuer
+//@   requires c != nil
+//@   readonly [C19.config-getters-read-only]
+//@   ensures [C19.config-getter-value] result == c.IDTokenIssuer
+
+//@ func (*Config).GetGrantTypeJWTBearerIssuedDateOptional
+//@   requires c != nil
+//@   readonly [C19.config-getters-read-only]
+//@   ensures [C19.config-getter-value] result == c.GrantTypeJWTBearerIssuedDateOptional
+
+//@ func (*Config).GetGrantTypeJWTBearerIDOptional
+//@   requires c != nil
+//@   readonly [C19.config-getters-read-only]
+//@   ensures [C19.config-getter-value] result == c.GrantTypeJWTBearerIDOptional
+
+//@ func (*Config).GetGrantTypeJWTBearerCanSkipClientAuth
+//@   requires c != nil
+//@   readonly [C19.config-getters-read-only]
+//@   ensures [C19.config-getter-value] result == c.GrantTypeJWTBearerCanSkipClientAuth
+
+//@ func (*Config).GetEnforcePKCE
+//@   requires c != nil
+//@   readonly [C19.config-getters-read-only]
+//@   ensures [C19.config-getter-value] result == c.EnforcePKCE
+
+//@ func (*Config).GetEnablePKCEPlainChallengeMethod
+//@   requires c != nil
+//@   readonly [C19.config-getters-read-only]
+//@   ensures [C19.config-getter-value] result == c.EnablePKCEPlainChallengeMethod
+
+//@ func (*Config).GetEnforcePKCEForPublicClients
+//@   requires c != nil
+//@   readonly [C19.config-getters-read-only]
+//@   ensures [C19.config-getter-value] result == c.EnforcePKCEForPublicClients
+
+//@ func (*Config).GetSanitationWhiteList
+//@   requires c != nil
+//@   readonly [C19.config-getters-read-only]
+//@   ensures [C19.config-getter-value] result == c.SanitationWhiteList
+
+//@ func (*Config).GetOmitRedirectScopeParam
+//@   requires c != nil
+//@   readonly [C19.config-getters-read-only]
+//@   ensures [C19.config-getter-value] result == c.OmitRedirectScopeParam
+
+//@ func (*Config).GetAccessTokenIssuer
+//@   requires c != nil
+//@   readonly [C19.config-getters-read-only]
+//@   ensures [C19.config-getter-value] result == c.AccessTokenIssuer
+
+//@ func (*Config).GetJWTScopeField
+//@   requires c != nil
+//@   readonly [C19.config-getters-read-only]
+//@   ensures [C19.config-getter-value] result == c.JWTScopeClaimKey
+
+//@ func (*Config).GetAllowedPrompts
+//@   requires c != nil
+//@   readonly [C19.config-getters-read-only]
+//@   ensures [C19.config-getter-value] result == c.AllowedPromptValues
+
+//@ func (*Config).GetScopeStrategy
+//@   requires c != nil
+//@   readonly [C19.config-getters-read-only]
+
+//@ func (*Config).GetAudienceStrategy
+//@   requires c != nil
+//@   readonly [C19.config-getters-read-only]
+
+//@ func (*Config).GetAuthorizeCodeLifespan
+//@   requires c != nil
+//@   readonly [C19.config-getters-read-only]
+//@   ensures [C07.config-lifespan-defaults] c.AuthorizeCodeLifespan == 0 ==> result == 900000000000
+//@   ensures [C07.config-lifespan-defaults] !(c.AuthorizeCodeLifespan == 0) ==> result == c.AuthorizeCodeLifespan
+
+//@ func (*Config).GetIDTokenLifespan
+//@   requires c != nil
+//@   readonly [C19.config-getters-read-only]
+//@   ensures [C07.config-lifespan-defaults] c.IDTokenLifespan == 0 ==> result == 3600000000000
+//@   ensures [C07.config-lifespan-defaults] !(c.IDTokenLifespan == 0) ==> result == c.IDTokenLifespan
+
+//@ func (*Config).GetAccessTokenLifespan
+//@   requires c != nil
+//@   readonly [C19.config-getters-read-only]
+//@   ensures [C07.config-lifespan-defaults] c.AccessTokenLifespan == 0 ==> result == 3600000000000
+//@   ensures [C07.config-lifespan-defaults] !(c.AccessTokenLifespan == 0) ==> result == c.AccessTokenLifespan
+
+//@ func (*Config).GetVerifiableCredentialsNonceLifespan
+//@   requires c != nil
+//@   readonly [C19.config-getters-read-only]
+//@   ensures [C07.config-lifespan-defaults] c.VerifiableCredentialsNonceLifespan == 0 ==> result == 3600000000000
+//@   ensures [C07.config-lifespan-defaults] !(c.VerifiableCredentialsNonceLifespan == 0) ==> result == c.VerifiableCredentialsNonceLifespan
+
+//@ func (*Config).GetRefreshTokenLifespan
+//@   requires c != nil
+//@   readonly [C19.config-getters-read-only]
+//@   ensures [C07.config-lifespan-defaults] c.RefreshTokenLifespan == 0 ==> result == 2592000000000000
+//@   ensures [C07.config-lifespan-defaults] !(c.RefreshTokenLifespan == 0) ==> result == c.RefreshTokenLifespan
+
+//@ func (*Config).GetDeviceAndUserCodeLifespan
+//@   requires c != nil
+//@   readonly [C19.config-getters-read-only]
+//@   ensures [C07.config-lifespan-defaults] c.DeviceAndUserCodeLifespan == 0 ==> result == defaultDeviceAndUserCodeLifespan
+//@   ensures [C07.config-lifespan-defaults] !(c.DeviceAndUserCodeLifespan == 0) ==> result == c.DeviceAndUserCodeLifespan
+
+//@ func (*Config).GetBCryptCost
+//@   requires c != nil
+//@   readonly [C19.config-getters-read-only]
+
+//@ func (*Config).GetJWKSFetcherStrategy
+//@   requires c != nil
+//@   readonly [C19.config-getters-read-only]
+
+//@ func (*Config).GetTokenEntropy
+//@   requires c != nil
+//@   readonly [C19.config-getters-read-only]
+
+//@ func (*Config).GetRedirectSecureChecker
+//@   requires c != nil
+//@   readonly [C19.config-getters-read-only]
+
+//@ func (*Config).GetRefreshTokenScopes
+//@   requires c != nil
+//@   readonly [C19.config-getters-read-only]
+
+//@ func (*Config).GetMinParameterEntropy
+//@   requires c != nil
+//@   readonly [C19.config-getters-read-only]
+
+//@ func (*Config).GetJWTMaxDuration
+//@   requires c != nil
+//@   readonly [C19.config-getters-read-only]
+
+//@ func (*Config).GetClientAuthenticationStrategy
+//@   requires c != nil
+//@   readonly [C19.config-getters-read-only]
+//@   ensures [C19.config-getter-value] result == c.ClientAuthenticationStrategy
+
+//@ func (*Config).GetDisableRefreshTokenValidation
+//@   requires c != nil
+//@   readonly [C19.config-getters-read-only]
+//@   ensures [C19.config-getter-value] result == c.DisableRefreshTokenValidation
+
+//@ func (*Config).GetPushedAuthorizeEndpointHandlers
+//@   requires c != nil
+//@   readonly [C19.config-getters-read-only]
+//@   ensures [C19.config-getter-value] result == c.PushedAuthorizeEndpointHandlers
+
+//@ func (*Config).GetPushedAuthorizeRequestURIPrefix
+//@   requires c != nil
+//@   readonly [C19.config-getters-read-only]
+
+//@ func (*Config).GetPushedAuthorizeContextLifespan
+//@   requires c != nil
+//@   readonly [C19.config-getters-read-only]
+//@   ensures [C07.config-lifespan-defaults] c.PushedAuthorizeContextLifespan <= 0 ==> result == defaultPARContextLifetime
+//@   ensures [C07.config-lifespan-defaults] !(c.PushedAuthorizeContextLifespan <= 0) ==> result == c.PushedAuthorizeContextLifespan
+
+//@ func (*Config).EnforcePushedAuthorize
+//@   requires c != nil
+//@   readonly [C19.config-getters-read-only]
+//@   ensures [C17.enforce-flag] result == c.IsPushedAuthorizeEnforced
+
+//@ func (*Config).GetDeviceVerificationURL
+//@   requires c != nil
+//@   readonly [C19.config-getters-read-only]
+//@   ensures [C19.config-getter-value] result == c.DeviceVerificationURL
+
+//@ func (*Config).GetDeviceAuthTokenPollingInterval
+//@   requires c != nil
+//@   readonly [C19.config-getters-read-only]
+
+//@ func (*Config).GetUserCodeLength
+//@   requires c != nil
+//@   readonly [C19.config-getters-read-only]
+
+//@ func (*Config).GetUserCodeSymbols
+//@   requires c != nil
+//@   readonly [C19.config-getters-read-only]
+
+//@ func NewDefaultJWKSFetcherStrategy
+//@   trusted
+//@   ensures result != nil && fresh(result)
